@@ -8,6 +8,9 @@ import Yarel.Drv.Str
 import Yarel.Drv.Verify
 import Yarel.Drv.Exc
 import Yarel.Drv.Fib
+import Yarel.Drv.Iter
+import Yarel.Drv.Mod
+import Yarel.Drv.Cls
 
 def main (args : List String) : IO UInt32 := do
   match args with
@@ -20,6 +23,9 @@ def main (args : List String) : IO UInt32 := do
   | "verify" :: rest => do Yarel.Drv.Verify.run rest; return 0
   | "exc" :: rest => do Yarel.Drv.Exc.run rest; return 0
   | "fib" :: rest => do Yarel.Drv.Fib.run rest; return 0
+  | "iter" :: rest => do Yarel.Drv.Iter.run rest; return 0
+  | "mod" :: rest => do Yarel.Drv.Mod.run rest; return 0
+  | "cls" :: rest => do Yarel.Drv.Cls.run rest; return 0
   | _ => do
     IO.eprintln "usage: yarel_model <family> [args]"
     return 2
